@@ -832,13 +832,27 @@ class HarnessDisagreement(Exception):
     pass
 
 
+_BUILT = {}
+
+
+def _has_contains(term):
+    return any(op[0] == "CONTAINS" for op in term[4])
+
+
 def evaluate(term, data, eng):
-    """returns (problems, nontrivial, outcome-key); raises HarnessDisagreement when the two oracles differ"""
+    """returns (problems, nontrivial, outcome-key); raises HarnessDisagreement when the two oracles differ.
+    The three statements of a term (ORM, count/exists wrappers, Core) are built once per process and reused for
+    every data set, unless the term contains contains(obj), whose parameter is a loaded object."""
     U = term[0]
     world = world_for(U)
+    cacheable = not _has_contains(term)
+    built = _BUILT.get(term) if cacheable else None
     try:
         expect = eval_relalg(term, data)
-        core_stmt, shape = build_core(world, term, data)
+        if built is None:
+            core_stmt, shape = build_core(world, term, data)
+        else:
+            core_stmt, shape = built["core"]
     except NotApplicable:
         return None
     with eng.connect() as conn:
@@ -853,7 +867,12 @@ def evaluate(term, data, eng):
         with warnings.catch_warnings(record=True) as wlist:
             warnings.simplefilter("always")
             try:
-                stmt = build_orm(world, term, sess, data)
+                if built is None:
+                    stmt = build_orm(world, term, sess, data)
+                    built = dict(core=(core_stmt, shape), orm=stmt, cnt=None, ex=None)
+                    if cacheable:
+                        _BUILT[term] = built
+                stmt = built["orm"]
                 rows = canon_orm(sess.execute(stmt).all(), U)
             except NotApplicable:
                 return None
@@ -862,10 +881,13 @@ def evaluate(term, data, eng):
             if not ra.bag_equal(rows, expect):
                 problems.append(("wrong-rows", "ORM returned %s\nrelational meaning / Core translation: %s" % (_bag(rows), _bag(expect))))
             try:
-                cnt = sess.scalar(select(func.count()).select_from(stmt.subquery()))
+                if built["cnt"] is None:
+                    built["cnt"] = select(func.count()).select_from(stmt.subquery())
+                    built["ex"] = select(stmt.exists())
+                cnt = sess.scalar(built["cnt"])
                 if cnt != len(rows):
                     problems.append(("count-mismatch", "select(count()).select_from(stmt.subquery()) = %r but the statement returned %d rows" % (cnt, len(rows))))
-                ex = sess.scalar(select(stmt.exists()))
+                ex = sess.scalar(built["ex"])
                 if bool(ex) != bool(rows):
                     problems.append(("exists-mismatch", "select(stmt.exists()) = %r but the statement returned %d rows" % (ex, len(rows))))
             except Exception as e:
